@@ -344,6 +344,9 @@ func runParent(ch Check, tier string, seed int64) int {
 		lines = append(lines, "  "+trimTo(v.Detail, 1500))
 	}
 
+	if total.Samples == nil {
+		total.Samples = []any{}
+	}
 	wall := time.Since(start).Seconds()
 	cov := map[string]any{
 		"evaluations":         total.Evals,
